@@ -129,7 +129,7 @@ def extract_source_constants(path=None):
 # generator
 
 _ALPH = "abcxyzfAB01_- "
-_UNI = ["é", "ß", "日本", "😀", "ǅ", "а", "Ω", " ", "\t", "é"]
+_UNI = ["\u00e9", "\u00df", "\u65e5\u672c", "\U0001f600", "\u01c5", "\u0430", "\u03a9", "\u00a0", "\t", "e\u0301"]
 _REL_NEAR = ["AND_REL", " AND_REL", "AND_REL ", " and_rel ", " AND REL ", " AND_RE L ", "  AND_REL", " AND "]
 
 
@@ -473,6 +473,11 @@ def check(run, replay):
         if run.tier == "thorough":
             cases.append(clamp_case(run.rng))
             cases.extend(exhaustive_cases())
+    valid = [c for c in cases if len(set(c["cols"])) == len(c["cols"]) and c["label"] in c["cols"] and c["cols"]]
+    if len(valid) != len(cases):
+        run.notes.append("%d case(s) outside the property's hypotheses (duplicate column names / label not a column) were skipped"
+                         % (len(cases) - len(valid)))
+        cases = valid
     verdicts = evaluate(cases)
 
     hist = {"ncols": {}, "heuristic": {}, "tro": {}, "batches": {}, "mode": {}, "cap_binding": 0, "cap_zero_or_neg": 0,
